@@ -10,7 +10,7 @@ import ast
 from typing import Dict, List, Optional, Set, Tuple
 
 from . import core
-from .shared_state import (CacheInfo, SharedWrite, World, published_before, recognise_cache, uses_of_attribute, value_dependencies, write_is_definite)
+from .shared_state import (CacheInfo, SharedWrite, World, global_tally_problems, lazy_constant, published_before, recognise_cache, uses_of_attribute, value_dependencies, write_is_definite)
 
 CACHE_KINDS = {"subscript-store:key", "subscript-store:const", "method:append"}
 
@@ -33,6 +33,8 @@ def classify(ctx, w: World, threads: bool = True):
     caches: Dict[Tuple[str, str], Tuple[CacheInfo, List[SharedWrite]]] = {}
     counters: List[Tuple[SharedWrite, str]] = []
     bad: List[SharedWrite] = []
+    tallies = w.global_tallies = []       # module-level dict of counters that API-reachable code only increments
+    lazies = w.lazy_constants = []        # (SharedWrite, descriptions): module-level values built once, independent of any argument
     for sw in writes:
         kinds = {k.split(" (")[0] for k in sw.kinds}
         late = None
@@ -63,8 +65,22 @@ def classify(ctx, w: World, threads: bool = True):
             caches[key][1].append(sw)
             continue
         aug = [k for k in kinds if k.startswith("attr-aug:")]
-        if aug and len(kinds) == 1 and w.eff.is_instance_object(sw.obj):
-            counters.append((sw, aug[0].split(":", 1)[1]))
+        if aug and len(aug) == len(kinds) and w.eff.is_instance_object(sw.obj) and \
+                (len(aug) == 1 or all(not check_counter(w, k.split(":", 1)[1]) for k in aug)):
+            # one counter (judged below), or several that are all write-only
+            for k in aug:
+                counters.append((sw, k.split(":", 1)[1]))
+            continue
+        rebinds = [k for k in kinds if k.startswith("global-rebind:")]
+        if rebinds and len(rebinds) == len(kinds) and all(lazy_constant(w.model, sw.origin_func, k.split(":", 1)[1]) for k in rebinds):
+            lazies.append((sw, [lazy_constant(w.model, sw.origin_func, k.split(":", 1)[1]) for k in rebinds]))
+            continue
+        if kinds == {"subscript-aug"} and not sw.field and sw.obj in w.model.module_vars and not global_tally_problems(w.model, sw.obj, w.reach):
+            tallies.append(sw)
+            continue
+        if kinds == {"subscript-aug"} and sw.field and w.eff.is_instance_object(sw.obj) and not check_counter(w, sw.field):
+            # self.tally[key] += 1 : a table of counters that no API-reachable code reads
+            counters.append((sw, sw.field))
             continue
         bad.append(sw)
     return caches, counters, bad
@@ -73,8 +89,12 @@ def classify(ctx, w: World, threads: bool = True):
 def check_counter(w: World, attr: str) -> List[str]:
     problems = []
     for fq, node, role in uses_of_attribute(w.model, attr):
-        if role in ("aug", "init", "guard-print"):
+        if role in ("aug", "aug-slot", "init", "guard-print"):
             continue
+        if fq not in w.reach and not fq.endswith(".__init__"):
+            continue        # read by a diagnostic function that no public function calls: it cannot influence a public result
+        if fq.endswith(".__init__") and role == "store":
+            continue        # whatever the constructor puts there is the initial value
         problems.append(f"`.{attr}` is used as `{role}` in {fq} line {node.lineno}")
     return problems
 
@@ -104,6 +124,11 @@ def run(ctx):
     for sw in sorted(bad, key=lambda s: (s.name, s.owner)):
         bad_owner_funcs.add(sw.owner)
         where = f"{w.rel_of(sw.owner)}:{sw.owner_line or sw.origin_line}"
+        vague = w.reached_by_name_only(sw)
+        if vague:
+            ctx.unk("C16.1", f"shared object {sw.name} may be written by {sw.owner}", where,
+                    f"`{sw.origin_text}` in {sw.origin_func} is reached through a call whose receiver class is not known: {vague}")
+            continue
         if write_is_definite(w.model, sw):
             ctx.bad("C16.1", f"shared object {sw.name} is written by {sw.owner}", where,
                     f"`{sw.origin_text}` in {sw.origin_func} (line {sw.origin_line}) stores into module-level state ({', '.join(sorted(sw.kinds))}); "
@@ -144,6 +169,13 @@ def run(ctx):
             ctx.ok("C16.2", f"cache {name} filled by {func} is an idempotent key-complete fill", where,
                    f"{ci.variant} variant; key `{core.src(ci.key_expr)}` computed from {sorted(ci.key_vars)}; value depends on {sorted(dep)}; "
                    f"placeholder handled; slot returned; computing code writes no other shared state; owners: {sorted({s.owner.split('.', 2)[-1] for s in sws})}")
+    # ---- values built on first use ----------------------------------------------------------------------------
+    for sw, descs in getattr(w, "lazy_constants", []):
+        ctx.ok("C16.2", f"module-level value {sw.name} is built on first use and published by one assignment", f"{w.rel_of(sw.origin_func)}:{sw.origin_line}",
+               "; ".join(descs) + ": threads that race on the first use store equal values, a reader sees None or the complete object")
+    for sw in getattr(w, "global_tallies", []):
+        ctx.ok("C16.3", f"module-level table of counters {sw.name} is write-only", f"{w.rel_of(sw.origin_func)}:{sw.origin_line}",
+               "code reachable from the API only increments its entries: a lost update cannot change a result")
     # ---- counters ----------------------------------------------------------------------------------------
     seen = set()
     for sw, attr in counters:
@@ -156,7 +188,7 @@ def run(ctx):
             ctx.bad("C16.3", f"counter {sw.obj}.{attr} incremented by {sw.origin_func} flows into results", where, "; ".join(problems))
         else:
             ctx.ok("C16.3", f"counter {sw.obj}.{attr} is write-only", where,
-                   "its only uses are the increment, its initialisation and a comparison guarding a print(): a lost update cannot change a result")
+                   "its only uses in code reachable from the API are the increment, its initialisation and a comparison guarding a print(): a lost update cannot change a result")
     # ---- import-time initialisation --------------------------------------------------------------------------
     n_import = 0
     for fq, fa in w.eff.analyses.items():
